@@ -58,3 +58,75 @@ def local_callees(facts, f, depth=2, seen=None):
             if depth > 1:
                 out += local_callees(facts, g, depth - 1, seen)
     return out
+
+
+def provenance(f):
+    """local id -> set of names (callee paths / method names / `self.<field>`) its value is computed from, transitively through other locals.
+    Bindings of every `let` / `if let` / `match` arm pattern take the provenance of the matched expression.  Name-independent data flow for wiring rules."""
+    direct = {}
+
+    def sources(e):
+        out = set()
+        locs = set()
+        for n in hir.nodes(e):
+            k = n.get('k')
+            if k in ('Call', 'MethodCall'):
+                c = hir.callee(n)
+                if c:
+                    out.add(c)
+                if k == 'MethodCall':
+                    out.add('.' + n['name'])
+            elif k == 'Field':
+                b = hir.strip(n['e'])
+                if b.get('k') == 'Path' and b['res'].get('k') == 'Local' and b['res'].get('name') == 'self':
+                    out.add('self.' + n['name'])
+            elif k == 'Path' and n['res'].get('k') == 'Local':
+                locs.add(n['res']['id'])
+        return out, locs
+    for n in hir.nodes(f['hir']):
+        k = n.get('k')
+        pat = init = None
+        if k in ('Let', 'LetCond') and n.get('init') is not None:
+            pat, init = n['pat'], n['init']
+            for _nm, i in hir.bindings(pat):
+                s, l = sources(init)
+                d = direct.setdefault(i, [set(), set()])
+                d[0] |= s
+                d[1] |= l
+        elif k == 'Match':
+            for a in n['arms']:
+                for _nm, i in hir.bindings(a['pat']):
+                    s, l = sources(n['scrut'])
+                    d = direct.setdefault(i, [set(), set()])
+                    d[0] |= s
+                    d[1] |= l
+        elif k == 'For':
+            for _nm, i in hir.bindings(n['pat']):
+                s, l = sources(n['iter'])
+                d = direct.setdefault(i, [set(), set()])
+                d[0] |= s
+                d[1] |= l
+        elif k == 'Assign' and hir.local(hir.strip(n['l'])):
+            i = hir.local(hir.strip(n['l']))[1]
+            s, l = sources(n['r'])
+            d = direct.setdefault(i, [set(), set()])
+            d[0] |= s
+            d[1] |= l
+    prov = {i: set(d[0]) for i, d in direct.items()}
+    changed = True
+    while changed:
+        changed = False
+        for i, d in direct.items():
+            for j in d[1]:
+                add = prov.get(j, set()) - prov[i]
+                if add:
+                    prov[i] |= add
+                    changed = True
+
+    def of_expr(e):
+        s, l = sources(e)
+        out = set(s)
+        for j in l:
+            out |= prov.get(j, set())
+        return out
+    return prov, of_expr
